@@ -835,6 +835,8 @@ func init() {
 	add("tx", 1, func(g *G) []string {
 		k, c, o := g.Key(), 1+g.R.Intn(g.Conns), 1+g.R.Intn(g.Conns)
 		ms := 8 + g.R.Intn(20)
+		// (the deadline is set when the first step is issued, a few steps from now: a generous band)
+		g.Dangers = append(g.Dangers, time.Now().UnixNano()+int64(ms)*1e6, time.Now().UnixNano()+int64(ms+2)*1e6)
 		g.Script = append(g.Script,
 			Step{o, []string{"SET", k, "soon-gone", "PX", strconv.Itoa(ms)}},
 			Step{c, []string{"WATCH", k}},
